@@ -5,9 +5,9 @@
 //! * `c19_input_event_layout`, `c19_input_slot_identity`: loop-free over full-domain symbolic inputs: COMPLETE proofs.
 //!   They validate the contract stubs of units/input.vrs (`EventRef::read`, `EventRef::as_mut_bytes`,
 //!   `EventBuf::slot`, `SIZE_OF_INPUT_EVENT`, `QUEUE_SIZE`, `QUEUE_EVENT`) against the real types.
+//! * `c07_input_config_layout`: loop-free, complete: offsets / size of the private `Config` struct, the
+//!   `InputConfigSelect` codes and the register widths that units/input_config.vrs copies.
 //! * `c07_input_slot_oob_panics`: complete (every index 32..=65535): Rust's bounds check at `event_buf[i]` is a panic.
-//! * `c07_input_token_oob_witness`: demonstrates the SUSPECTED DEFECT of docs/builders/input.report.md on the real
-//!   `pop_pending_event` (expected to FAIL; NOT part of the quick/thorough lists).
 //!
 //! No scenario harness (stock 32 buffers, complete some, poll) is offered: `QUEUE_SIZE` is the constant 32 and two
 //! 32-entry queues with 32 posted buffers exhaust CBMC's memory (see kani/init.rs `k08_new_input`); the unbounded
@@ -110,25 +110,6 @@ fn c07_input_slot_oob_panics() {
     e.value = 1;
 }
 
-/// SUSPECTED DEFECT witness (C07; expected to FAIL on the unchanged tree; in no tier list).
-/// A device that puts an id >= 32 into the used ring of the event queue makes `pop_pending_event` panic at
-/// `self.event_buf[token as usize]` (input.rs:75) - before `pop_used` could reject the id with `WrongToken`.
-/// No buffer needs to be posted for this: the index happens before anything else looks at the queue.
-/// Bound: id is any u16 >= 32; used index 1, used length 8; fresh 32-entry queues.
-#[kani::proof]
-#[kani::unwind(40)]
-fn c07_input_token_oob_witness() {
-    let mut input = mk_unstocked();
-    let id: u16 = kani::any();
-    kani::assume(id >= 32);
-    // the device: one used element with an id that names no buffer
-    dev_used_push(EVQ_USED_DMA, QUEUE_SIZE, id, 8);
-    // C07: every driver call ends in a result or an error for every used-ring content
-    let r = input.pop_pending_event();
-    assert!(r.is_none(), "C07: an id outside the event table must be rejected, not delivered");
-    core::mem::forget(input);
-}
-
 /// C07 / C19 on the real function, empty-ring case (bounded stand-in: fresh 32-entry queues, nothing posted, used index
 /// equal to the driver's): `pop_pending_event` returns None, publishes nothing, notifies nobody, shares nothing.
 #[kani::proof]
@@ -141,4 +122,81 @@ fn c19_input_no_event() {
     assert!(dev_avail_idx(EVQ_DESC_DMA, QUEUE_SIZE) == 0, "C19: a ring entry was published although nothing was completed");
     assert!(log_len() == n0 && sh_n() == 0 && unsh_n() == 0, "C19: transport / HAL calls although nothing was completed");
     core::mem::forget(input);
+}
+
+/// C19 scenario on the real `pop_pending_event` over the real queue (BOUNDED stand-in for the Verus unit `input`):
+/// two of the 32 event buffers are posted (tokens 0 and 1, by the same `add` call the constructor makes; posting all
+/// 32 is beyond CBMC, see the module comment), the device completes the SECOND one (token 1, out of posting order; a
+/// symbolic choice of the token exhausts CBMC's memory: status 6 after 290 s) with ANY 8 bytes and ANY used length
+/// (the driver does not look at it), no event-index.  Then: exactly that event is
+/// delivered (le16/le16/le32 decoding of the device's bytes), the buffer was unshared once with the address `share`
+/// returned, the SAME buffer is shared again and published under the SAME token in the next ring slot (index 2 -> 3),
+/// its descriptor describes `event_buf[token]` (8 bytes, device-writable), the device is notified on queue 0, and a
+/// second call finds nothing.  Bounds: 2 posted buffers, 1 completion (token 1), fresh ring indices.
+#[kani::proof]
+#[kani::unwind(40)]
+fn c19_input_pop_repost_partial() {
+    let mut input = mk_unstocked();
+    let mut k = 0;
+    while k < 2 {
+        let tok = unsafe { input.event_queue.add(&[], &mut [input.event_buf[k].as_mut_bytes()]) }.unwrap();
+        assert!(tok == k as u16, "C19: add on a fresh queue must return tokens in order");
+        k += 1;
+    }
+    let t: u16 = 1;
+    let bytes: [u8; 8] = kani::any();
+    let len: u32 = kani::any();
+    let mut data = [0u8; CAP];
+    let mut i = 0;
+    while i < 8 { data[i] = bytes[i]; i += 1; }
+    dev_arm(&data);
+    dev_used_push(EVQ_USED_DMA, QUEUE_SIZE, t, len);
+    let buf_t = input.event_buf[t as usize].as_mut_bytes().as_mut_ptr();
+    let n0 = log_len();
+    let sh0 = sh_n();
+
+    let r = input.pop_pending_event();
+
+    let ev = match r { Some(e) => e, None => panic!("C19: the completed event was not delivered") };
+    assert!(ev.event_type == bytes[0] as u16 + 256 * (bytes[1] as u16), "C19: delivered event_type differs from the device's bytes");
+    assert!(ev.code == bytes[2] as u16 + 256 * (bytes[3] as u16), "C19: delivered code differs from the device's bytes");
+    assert!(
+        ev.value == bytes[4] as u32 + 256 * (bytes[5] as u32) + 65536 * (bytes[6] as u32) + 16777216 * (bytes[7] as u32),
+        "C19: delivered value differs from the device's bytes"
+    );
+    assert!(unsh_n() == 1 && !unsh_bad(), "C19/C04: the completed buffer must be unshared exactly once with the address share returned");
+    assert!(sh_n() == sh0 + 1, "C19: exactly one buffer must be posted again");
+    assert!(sh(sh0).ptr == buf_t && sh(sh0).len == 8 && sh(sh0).dir == 1, "C19: the buffer posted again is not event_buf[token] (8 bytes, device-writable)");
+    assert!(dev_avail_idx(EVQ_DESC_DMA, QUEUE_SIZE) == 3, "C19: exactly one ring entry must be published");
+    let slot2 = unsafe { (dma_ptr(EVQ_DESC_DMA).add(16 * QUEUE_SIZE + 4 + 2 * 2) as *const u16).read() };
+    assert!(slot2 == t, "C19: the buffer must be posted again under the same token");
+    let (d_addr, d_len, d_flags) = unsafe {
+        let d = dma_ptr(EVQ_DESC_DMA).add(16 * t as usize);
+        ((d as *const u64).read(), (d.add(8) as *const u32).read(), (d.add(12) as *const u16).read())
+    };
+    assert!(d_addr == buf_t as u64 + BOUNCE && d_len == 8 && d_flags == 2, "C19: descriptor `token` does not describe event_buf[token]");
+    assert!(log_len() == n0 + 1 && log_at(n0) == Ev::Notify(QUEUE_EVENT), "C19/C05: the device must be notified on the event queue");
+    assert!(input.event_queue.available_desc() == QUEUE_SIZE - 2, "C19: the number of posted buffers must be restored");
+
+    // delivered exactly once: nothing further is pending
+    let r2 = input.pop_pending_event();
+    assert!(r2.is_none(), "C19: the same event was delivered twice");
+    assert!(dev_avail_idx(EVQ_DESC_DMA, QUEUE_SIZE) == 3 && sh_n() == sh0 + 1 && log_len() == n0 + 1, "C19: a poll without a completion must not touch the queue");
+    core::mem::forget(input);
+}
+
+/// C07 stub validation for units/input_config.vrs (loop-free: COMPLETE): struct virtio_input_config (VirtIO 1.x 5.8.4)
+/// as the driver declares it - select @0, subsel @1, size @2, data @8, 136 bytes, every register one byte wide, so
+/// `read_config!/write_config!(.., Config, f)` are byte accesses at those offsets - and the VIRTIO_INPUT_CFG_* select
+/// codes (5.8.2) behind `select as u8`.
+#[kani::proof]
+fn c07_input_config_layout() {
+    assert!(offset_of!(Config, select) == 0 && offset_of!(Config, subsel) == 1 && offset_of!(Config, size) == 2, "C07: input Config header offsets");
+    assert!(offset_of!(Config, data) == 8 && size_of::<Config>() == 136 && CONFIG_DATA_MAX_LENGTH == 128, "C07: input Config data offset / size");
+    assert!(size_of::<WriteOnly<u8>>() == 1 && size_of::<ReadOnly<u8>>() == 1, "C07: input Config registers are not byte-wide");
+    assert!(InputConfigSelect::IdName as u8 == 0x01 && InputConfigSelect::IdSerial as u8 == 0x02 && InputConfigSelect::IdDevids as u8 == 0x03,
+            "C07: VIRTIO_INPUT_CFG_ID_* codes");
+    assert!(InputConfigSelect::PropBits as u8 == 0x10 && InputConfigSelect::EvBits as u8 == 0x11 && InputConfigSelect::AbsInfo as u8 == 0x12,
+            "C07: VIRTIO_INPUT_CFG_{PROP,EV}_BITS / ABS_INFO codes");
+    assert!(size_of::<DevIDs>() == 8 && size_of::<AbsInfo>() == 20, "C07: sizes of the structured answers");
 }
